@@ -60,15 +60,16 @@ fn finite_float_bits() -> BoxedStrategy<u32> {
 fn mtrl_strategy(_: &Ctx) -> BoxedStrategy<MtrlSpec> {
     (
         (any::<u32>(), path_name(), vec(path_name(), 0..=6), vec(any::<(u16, u16)>(), 0..3), vec(any::<(u16, u16)>(), 0..3), vec(path_name(), 0..3)),
-        (0u8..4, any::<bool>(), any::<u64>(), 0u8..6, any::<u32>()),
+        (prop_oneof![4 => 0u8..4, 1 => Just(4u8)], any::<bool>(), any::<u64>(), 0u8..6, any::<u32>()),
         (vec(any::<(u32, u32)>(), 0..=8), vec((any::<u32>(), vec(finite_float_bits(), 1..=4)), 0..=8), vec((0u8..22, any::<u32>(), any::<u8>(), any::<[u8; 3]>()), 0..=6), any::<u32>(), 0u8..3),
     )
         .prop_map(|((version, shader_package, textures, uv_sets, color_sets, extra_strings), (table, dye, seed, additional_extra, flag_noise), (keys, constants, samplers, header_flags, value_gap))| {
             let rows = table_rows(table);
-            let raw = crate::build::mdl::random_bytes(seed, rows * rows * 2 + rows * 4);
+            let dye_rows = if table == 4 { 32 } else { rows };
+            let raw = crate::build::mdl::random_bytes(seed, rows * rows * 2 + dye_rows * 4);
             let table_halves: Vec<u16> = (0..rows * rows).map(|i| u16::from_le_bytes([raw[2 * i], raw[2 * i + 1]])).collect();
-            let dye_words: Vec<u32> = (0..rows).map(|i| u32::from_le_bytes(raw[rows * rows * 2 + 4 * i..rows * rows * 2 + 4 * i + 4].try_into().unwrap())).collect();
-            MtrlSpec { version, shader_package, textures, uv_sets, color_sets, extra_strings, table, dye: dye && table != 2 && table != 0, table_halves, dye_words, additional_extra, flag_noise, keys, constants, samplers, header_flags, value_gap }
+            let dye_words: Vec<u32> = (0..dye_rows).map(|i| u32::from_le_bytes(raw[rows * rows * 2 + 4 * i..rows * rows * 2 + 4 * i + 4].try_into().unwrap())).collect();
+            MtrlSpec { version, shader_package, textures, uv_sets, color_sets, extra_strings, table, dye: (dye && table != 2 && table != 0) || table == 4, table_halves, dye_words, additional_extra, flag_noise, keys, constants, samplers, header_flags, value_gap }
         })
         .boxed()
 }
@@ -183,6 +184,7 @@ fn prop_mtrl(m: &MtrlSpec, ctx: &Ctx) -> PResult {
                 eq2(&row.material_skew, &hs[30..], "material_skew", r)?;
             }
         }
+        (Some(ColorTable::OpaqueColorTable(_)), 4) => {}
         (got, want) => return fail("color-table-kind", format!("colour table kind: physis={:?} stored kind {}", got.as_ref().map(|g| format!("{:?}", g).chars().take(24).collect::<String>()), want)),
     }
     match (&mat.color_dye_table, m.dye, m.table) {
@@ -194,7 +196,7 @@ fn prop_mtrl(m: &MtrlSpec, ctx: &Ctx) -> PResult {
                 ensure_eq!((row.template, row.diffuse, row.specular, row.emissive, row.gloss, row.specular_strength), (d >> 5, d & 1 != 0, d & 2 != 0, d & 4 != 0, d & 8 != 0, d & 16 != 0), "dye-table-row", "legacy dye row {} from word {:#06x}", r, d);
             }
         }
-        (Some(ColorDyeTable::DawntrailColorDyeTable(t)), true, 3) => {
+        (Some(ColorDyeTable::DawntrailColorDyeTable(t)), true, 3 | 4) => {
             ensure_eq!(t.rows.len(), 32, "dye-table-rows", "Dawntrail dye rows");
             for (r, row) in t.rows.iter().enumerate() {
                 let d = m.dye_words[r];
@@ -205,7 +207,10 @@ fn prop_mtrl(m: &MtrlSpec, ctx: &Ctx) -> PResult {
         }
         (got, dye, table) => return fail("dye-table-kind", format!("dye table: physis={:?}, stored dye={} table kind {}", got.as_ref().map(|g| format!("{:?}", g).chars().take(24).collect::<String>()), dye, table)),
     }
-    ctx.classf(format!("mtrl:table:{}", ["none", "legacy-dims0", "legacy-0x42", "dawntrail"][m.table as usize]));
+    ctx.classf(format!("mtrl:table:{}", ["none", "legacy-dims0", "legacy-0x42", "dawntrail", "opaque-0x5X-with-dye"][m.table as usize]));
+    if m.table == 4 {
+        ctx.classf(format!("mtrl:dims:{:#04x}", 0x50 | opaque_dims_nibble(m.flag_noise)));
+    }
     if m.dye {
         ctx.class("mtrl:dye-table");
     }
